@@ -221,6 +221,38 @@ func (e *eagerEOFReader) Read(p []byte) (int, error) {
 	return n, nil
 }
 
+// tillTrace reads the stream with frame-restricted reads (ReadOptions.TillEndOfFrame) wherever a
+// frame is loaded and an unrestricted read after every ErrEndOfFrame; the trace records, per call,
+// whether a record, ErrEndOfFrame or another error came back. It must not depend on the source.
+func tillTrace(root *rootSpec, src io.Reader, maxCalls int) (trace string, pan string) {
+	var sb strings.Builder
+	_, pan = safe(func() error {
+		rd, err := root.newReader(src)
+		if err != nil {
+			sb.WriteString("ctor:" + errClass(err))
+			return nil
+		}
+		till := false
+		for i := 0; i < maxCalls; i++ {
+			err := rd.Read(pkg.ReadOptions{TillEndOfFrame: till})
+			switch {
+			case err == nil:
+				sb.WriteByte('r')
+				till = true
+			case err == pkg.ErrEndOfFrame:
+				sb.WriteByte('E')
+				till = false
+			default:
+				sb.WriteString("|" + errClass(err))
+				return nil
+			}
+		}
+		sb.WriteString("|capped")
+		return nil
+	})
+	return sb.String(), pan
+}
+
 // checkSplits reads the stream through sources that split it differently and compares every
 // outcome with the whole-buffer read.
 func checkSplits(r *rng.R, name string, root *rootSpec, opts string, stream []byte, truths []string, hdrRegion int) {
@@ -253,6 +285,27 @@ func checkSplits(r *rng.R, name string, root *rootSpec, opts string, stream []by
 		{"full+eof", &eagerEOFReader{b: stream}, false},
 		{"64k+eof", &eagerEOFReader{b: stream, max: 64 << 10}, false},
 		{"5000+eof", &eagerEOFReader{b: stream, max: 5000}, false},
+	}
+	// frame-restricted reads: the same call sequence must see the same frame boundaries
+	wantTill, _ := tillTrace(root, bytes.NewReader(stream), 3*maxReads+8)
+	for _, tv := range []struct {
+		name string
+		src  io.Reader
+	}{
+		{"onebyte", iotest.OneByteReader(bytes.NewReader(stream))},
+		{"half", iotest.HalfReader(bytes.NewReader(stream))},
+		{"short40", mk(0, 40)},
+		{"full+eof", &eagerEOFReader{b: stream}},
+	} {
+		got, pan := tillTrace(root, tv.src, 3*maxReads+8)
+		stats["till-variant-"+tv.name]++
+		if got != wantTill || pan != "" {
+			sigCount["till-end-of-frame-depends-on-split"]++
+			if sigCount["till-end-of-frame-depends-on-split"] <= maxReportsPerSig {
+				propFail("C07 till-end-of-frame-depends-on-split case=%s root=%s opts=%s variant=%s: frame-restricted reads on the whole buffer: %s; on this source: %s (panic %q); r = record, E = ErrEndOfFrame; stream=%s",
+					name, root.name, opts, tv.name, wantTill, got, pan, hx(trunc(stream, 400)))
+			}
+		}
 	}
 	reported := map[string]bool{}
 	for _, v := range vs {
